@@ -202,6 +202,9 @@ func (b *unboundBuilder) Parse(s string) (*Literal, error) {
 	if idx < 0 {
 		return nil, fmt.Errorf("literal.Parse: text encoded literals must have a type; missing in %s", raw)
 	}
+	if idx == 0 {
+		return nil, fmt.Errorf("literal.Parse: text encoded literals must have a quoted value before the type; missing in %s", raw)
+	}
 	v := raw[1:idx]
 	t := raw[idx+len("\"^^type:"):]
 	switch t {
@@ -226,6 +229,9 @@ func (b *unboundBuilder) Parse(s string) (*Literal, error) {
 	case "text":
 		return b.Build(Text, v)
 	case "blob":
+		if len(v) < 2 || v[0] != '[' || v[len(v)-1] != ']' {
+			return nil, fmt.Errorf("literal.Parse: blob values must be enclosed in [ ]; found %q", v)
+		}
 		values := v[1 : len(v)-1]
 		if values == "" {
 			return b.Build(Blob, []byte{})
@@ -240,7 +246,7 @@ func (b *unboundBuilder) Parse(s string) (*Literal, error) {
 		}
 		return b.Build(Blob, bs)
 	default:
-		return nil, nil
+		return nil, fmt.Errorf("literal.Parse: unknown literal type %q in %s", t, raw)
 	}
 }
 
